@@ -20,6 +20,8 @@ func verifRing(*ring) {}
 
 func verifPool(*pool) {}
 
+func verifMux(*mux) {}
+
 func verifFirst(multi []Completed) (c Completed) {
 	if len(multi) != 0 {
 		c = multi[0]
